@@ -177,6 +177,38 @@ def _rand_msg(rng, fd, depth, max_depth):
     return rand_valuation(rng, fd.message_type, depth + 1, max_depth, p_field=0.5)
 
 
+def presence_only_valuation(rng, desc):
+    """Only fields WITH presence, all at their default value (optional scalars 0/''/False, singular
+    messages empty, a oneof member at its default): python-falsy everywhere, yet not an empty request."""
+    val = {}
+    seen_oneof = set()
+    for fd in desc.fields:
+        if fd.label == FD.LABEL_REPEATED or rng.random() < 0.4:
+            continue
+        oo = fd.containing_oneof
+        if oo is None and fd.type != FD.TYPE_MESSAGE:
+            continue
+        if oo is not None:
+            if oo.name in seen_oneof:
+                continue
+            seen_oneof.add(oo.name)
+        if fd.type == FD.TYPE_MESSAGE:
+            if fd.message_type.full_name in WKT_LEAF or fd.message_type.full_name in UNGENERATED:
+                continue
+            val[fd.name] = {}
+        elif fd.type == FD.TYPE_STRING:
+            val[fd.name] = ""
+        elif fd.type == FD.TYPE_BYTES:
+            val[fd.name] = {"__b": ""}
+        elif fd.type == FD.TYPE_BOOL:
+            val[fd.name] = False
+        elif fd.type in (FD.TYPE_DOUBLE, FD.TYPE_FLOAT):
+            val[fd.name] = 0.0
+        else:
+            val[fd.name] = 0
+    return val
+
+
 def _conv_scalar(fd, v):
     if isinstance(v, dict) and "__b" in v:
         return bytes.fromhex(v["__b"])
